@@ -325,6 +325,14 @@ static ssize_t do_read(OpenFile& of, void* buf, size_t n, off_t* explicit_off, b
   }
   const Faults& f = w.faults;
   bool nonblock = (of.flags & O_NONBLOCK) != 0;
+  if (f.truncate_race && ino.kind == Kind::REG && !explicit_off && of.pos < ino.data.size() && vsim::chance(1, f.truncate_race, "read.truncate_race")) {
+    // a concurrent writer has truncated the file since the caller looked at its size
+    size_t keep = of.pos + vsim::choose_range(0, ino.data.size() - of.pos - 1, "read.truncate_race.keep");
+    ino.data.resize(keep);
+    c.truncations++;
+    VS_FAULT("concurrent_truncate");
+    vsim::ev("truncated", keep);
+  }
   size_t pos = explicit_off ? (size_t)*explicit_off : of.pos;
   size_t avail = pos < ino.data.size() ? ino.data.size() - pos : 0;
 
